@@ -18,6 +18,7 @@ def run(prog, tier, extra=None):
     res = Result("C08", "other")
     R1 = res.rule("C08.routing-work", "accept paths with a previous block pass total_work >= work needed(prev.burnfee, timestamps, heartbeat)", floor=1)
     R2 = res.rule("C08.golden-ticket", "a carried golden ticket passes GoldenTicket::validate(prev.difficulty) re-targeted at prev.hash", floor=1)
+    R5 = res.rule("C08.winner-first-match", "the winning transaction of the router lottery is the first one, in block order, whose cumulative fees reach the winning nolan", floor=1)
     R4 = res.rule("C08.halving", "routing work halves exactly len(path) - 1 times", floor=1)
     R3 = res.rule("C08.routing-path", "a false validate_routing_path rejects the transaction", floor=1)
     bv = BlockValidate(prog)
@@ -207,6 +208,32 @@ def run(prog, tier, extra=None):
             else:
                 res.add(Finding(R4, "C08.halving|count", "generate_total_work halves the routing work %s times, not len(path) - 1 times: multi-hop transactions are credited "
                                 "with the wrong amount of work" % repr(cnt), gw.loc(H)))
+
+    # R5: the router lottery picks the *first* transaction whose cumulative fee total reaches the winning nolan. cumulative_fees is
+    # not strictly increasing (a transaction without fee repeats its predecessor's total), so a binary search by that key lands on
+    # an arbitrary one of the equal entries - possibly a transaction that paid nothing. Only first-match searches are admissible.
+    fw = prog.body(CORE + "consensus::block::Block::find_winning_router")
+    if fw is None:
+        raise LookupError("Block::find_winning_router not found")
+    chw5 = Chaser(fw)
+    res.instance(R5)
+    bins = []
+    firsts = []
+    for bb, t in fw.calls():
+        last = (call_name(t) or "").rsplit("::", 1)[-1]
+        args = [chw5.origin(a) for a in t["args"]]
+        on_txs = any(has_field(a, "block::Block", "transactions") for a in args[:1])
+        if last.startswith("binary_search") and on_txs:
+            bins.append(bb)
+        if last in ("find", "position", "partition_point", "next") and on_txs:
+            firsts.append(bb)
+    if bins:
+        res.add(Finding(R5, "C08.winner-first-match|binary-search", "Block::find_winning_router looks the winning transaction up with a binary search over cumulative_fees, which repeats for "
+                        "transactions without fee: the payout can go to the sender of a transaction that paid nothing", fw.loc(bins[0])))
+    elif not firsts:
+        res.not_decided.append("C08.winner-first-match: no first-match search over self.transactions recognised in find_winning_router")
+    else:
+        res.sample({"rule": R5, "search": [fw.loc(x) for x in firsts], "verdict": "first match in block order"})
 
     res.explanation = (
         "Decides that the work requirement and the golden-ticket check are gates on every accepting path of Block::validate for a block with a known parent "
